@@ -397,6 +397,41 @@ pub fn check_function(f: &mut LocalFunction, origin: &str) -> Result<TreeStats, 
             st.nested_starts += 1;
         }
     }
+    // a traversal started from inside a visitor callback (analyses that walk
+    // a callee when they meet a call do this) is a traversal like any other
+    if st.instrs < 2000 {
+        struct Reenter<'f> {
+            f: &'f LocalFunction,
+            done: bool,
+            inner: Vec<Ev>,
+        }
+        impl<'a, 'f> Visitor<'a> for Reenter<'f> {
+            fn start_instr_seq(&mut self, _s: &'a InstrSeq) {
+                if !self.done {
+                    self.done = true;
+                    let mut v = RecDefault::default();
+                    dfs_in_order(&mut v, self.f, self.f.entry_block());
+                    self.inner = v.ev;
+                }
+            }
+        }
+        let mut refev = Vec::new();
+        reference(f, entry, &mut refev, 1, &mut TreeStats::default());
+        let inner = {
+            let fr: &LocalFunction = f;
+            let mut v = Reenter { f: fr, done: false, inner: vec![] };
+            guard("dfs_in_order", || dfs_in_order(&mut v, fr, entry)).map_err(|e| {
+                Failure::new("dfs_in_order:nested-traversal-panicked", format!("a traversal started from start_instr_seq of another traversal panicked: {} [{}]", e.detail, origin))
+            })?;
+            v.inner
+        };
+        if split(&inner).0 != split(&refev).0 {
+            return Err(Failure::new(
+                "dfs_in_order:nested-traversal-differs",
+                format!("a traversal started from inside a visitor callback reports {} events, the reference walk {} [{}]", inner.len(), refev.len(), origin),
+            ));
+        }
+    }
     // last, because it rewrites the function
     if st.instrs < 2000 {
         check_write_through(f, origin)?;
